@@ -688,6 +688,11 @@ impl Connection {
         loop {
             let len = {
                 trace!("Attempting to read message length (4 bytes, distribution protocol)...");
+                // Waiting for the next frame is not an I/O operation in progress: a healthy peer
+                // may stay silent for longer than the I/O timeout (OTP ticks every 15 s by
+                // default). The timeout applies once a frame has started to arrive.
+                let mut first_byte = [0u8; 1];
+                read_half.peek(&mut first_byte).await?;
                 let mut len_bytes = [0u8; 4];
                 tokio::time::timeout(timeout, read_half.read_exact(&mut len_bytes))
                     .await
